@@ -5,11 +5,20 @@
     back at the address and width it was written with returns the written value, cells at other addresses and all registers
     are untouched, and register writes leave memory untouched; (3) with C06: in a register-only state every value so computed
     denotes, in every concrete state, the value of its source under the substituted pre-state.
-    NOT proved: read-backs that partially overlap earlier writes of other widths (substract_mems / mem_overlapping), rep-prefixed
-    instructions, and the composition over instruction sequences — decided by the exhaustive (<= 2 stores + 1 load) and random
-    history correspondence and the instruction-sequence runs of harness/p_c07.py. *)
+    (4) overlapping writes, geometry (SubMem.v): when a cell [b, b + bw) is written over a stored cell [a, a + aw) that it overlaps,
+    the pieces substract_mems keeps of the old cell are, in order, the slices value[lo:hi] for bit ranges computed from aw, bw and
+    the byte distance alone; those ranges are pairwise disjoint, lie inside the old cell and cover EXACTLY the bits the new cell does
+    not overwrite; each kept piece has the width of its range and denotes that bit range of the old value; and the window scanned by
+    get_mem_overlapping (offsets -7 .. w/8 - 1, with its distance filter) finds exactly the overlapping cells of width <= 64, and the
+    model reports exactly the stored cells met in that window that pass the filter.
+    (5) read paths (ReadPaths.v): a read at the address and width of a stored cell returns the stored value; a NARROWER read at the
+    address of a stored cell returns an expression denoting the low bits of the stored value in every concrete state (through C05).
+    NOT proved: that the ADDRESS expressions of the kept pieces evaluate to a + lo/8 (they go through eval_expr and the simplifier),
+    the other read-back paths (the walk over consecutive cells for a wider read and the reconstruction from overlapping cells), rep-prefixed instructions, and the
+    composition over instruction sequences — decided by the exhaustive (<= 2 stores + 1 load) and random history correspondence and
+    the instruction-sequence runs of harness/p_c07.py. *)
 From Coq Require Import ZArith List Bool String.
-From Mx Require Import Expr Simp SimpProofs EvalAbs EvalAbsProofs MachineProofs.
+From Mx Require Import Expr Simp SimpProofs EvalAbs EvalAbsProofs MachineProofs SubMem ReadPaths.
 Import ListNotations.
 Open Scope Z_scope.
 
@@ -44,6 +53,70 @@ Theorem C07_source_value_in_pre_state : forall (Sig : string -> Z * bool * bool)
   forall rho mu iota, eval rho mu iota v = eval (rho' s rho mu iota) mu iota src.
 Proof. intros Sig s Hm Hp fuel src v W H. apply (eval_expr_is_substitution Sig s Hm Hp fuel src v W H). Qed.
 Print Assumptions C07_source_value_in_pre_state.
+
+(** overlapping writes: what remains of the old cell *)
+Theorem C07_remaining_pieces_are_the_geometry : forall fuel s aaddr aw sg cellv baddr bw pieces,
+  substract_mems fuel s (EMem aaddr aw sg) cellv baddr bw = okx pieces ->
+  exists dv sgd wd, (dox y <- eval_expr fuel s (EOp "-" [baddr; aaddr]); lift (simpF y)) = okx (EInt sgd wd dv) /\
+    map snd pieces = map (fun p => getitem cellv (fst p) (snd p)) (sub_geom aw bw (int32_of dv)).
+Proof. exact substract_mems_geometry. Qed.
+Print Assumptions C07_remaining_pieces_are_the_geometry.
+Theorem C07_remaining_ranges_partition_the_unwritten_bits : forall aw bw d, 0 < aw -> 0 < bw -> - bw < d * 8 < aw ->
+  (forall p, In p (sub_geom aw bw d) -> 0 <= fst p < snd p /\ snd p <= aw) /\
+  (forall i, 0 <= i < aw -> (covered (sub_geom aw bw d) i <-> ~ (d * 8 <= i < d * 8 + bw))) /\
+  (forall p q, In p (sub_geom aw bw d) -> In q (sub_geom aw bw d) -> p <> q -> snd p <= fst q \/ snd q <= fst p).
+Proof. exact sub_geom_partition. Qed.
+Print Assumptions C07_remaining_ranges_partition_the_unwritten_bits.
+Theorem C07_remaining_pieces_widths : forall fuel s aaddr aw sg cellv baddr bw pieces dv sgd wd,
+  substract_mems fuel s (EMem aaddr aw sg) cellv baddr bw = okx pieces ->
+  (dox y <- eval_expr fuel s (EOp "-" [baddr; aaddr]); lift (simpF y)) = okx (EInt sgd wd dv) ->
+  size cellv = aw -> 0 < aw -> 0 < bw -> - bw < int32_of dv * 8 < aw ->
+  map (fun p => size (fst p)) pieces = map (fun p => snd p - fst p) (sub_geom aw bw (int32_of dv)).
+Proof. exact substract_mems_widths. Qed.
+Print Assumptions C07_remaining_pieces_widths.
+Theorem C07_piece_denotes_its_bit_range : forall rho mu iota cellv lo hi, 0 <= lo <= hi -> hi <= size cellv ->
+  eval rho mu iota (getitem cellv lo hi) = (Z.shiftr (eval rho mu iota cellv) lo) mod 2 ^ (hi - lo).
+Proof. exact getitem_value. Qed.
+Print Assumptions C07_piece_denotes_its_bit_range.
+Theorem C07_overlap_window_is_exact : forall w cw i, 0 < w -> w mod 8 = 0 -> 0 < cw <= 64 ->
+  (In i (range_from (-7) (Z.to_nat (7 + w / 8))) /\ (8 * (- i) >=? cw) = false) <-> (i * 8 < w /\ 0 < i * 8 + cw).
+Proof. exact overlap_window_exact. Qed.
+Print Assumptions C07_overlap_window_is_exact.
+Theorem C07_overlapping_cells_reported_exactly : forall fuel s a_val w ov, mem_overlapping fuel s a_val w = okx ov ->
+  forall i cell v, In (i, (cell, v)) ov <-> (In i (range_from (-7) (Z.to_nat (7 + w / 8))) /\ exists x, reported fuel s a_val i x cell v).
+Proof. exact mem_overlapping_exact. Qed.
+Print Assumptions C07_overlapping_cells_reported_exactly.
+(** a byte written into the middle of a stored dword leaves its low byte and its high half *)
+Example C07_geometry_of_a_byte_in_a_dword : sub_geom 32 8 1 = [(0, 8); (16, 32)].
+Proof. reflexivity. Qed.
+(** and the model does so on a concrete pool: dword at 0x1000, byte written at 0x1001 *)
+Example C07_substract_concrete :
+  let cell := EMem (EInt false 32 4096) 32 None in let v := EId "v" 32 true false in
+  match substract_mems 40 (Pool [] [(EInt false 32 4096, (cell, v))]) cell v (EInt false 32 4097) 8 with
+  | inl (Ok ps) => map snd ps = [getitem v 0 8; getitem v 16 32] /\ map (fun p => size (fst p)) ps = [8; 16]
+  | _ => False
+  end.
+Proof. vm_compute. split; reflexivity. Qed.
+
+(** read paths *)
+Theorem C07_read_hits_the_stored_cell : forall f s addr w sg addr1 w1 sg1 a_val v,
+  visitM simpF (EMem addr w sg) = Ok (EMem addr1 w1 sg1) -> evs f s addr1 = okx a_val -> pool_get_mem s a_val w1 = Some v ->
+  eval_expr (S f) s (EMem addr w sg) = okx v.
+Proof. intros f s addr w sg addr1 w1 sg1 a_val v Hv Ha Hit. exact (read_exact_hit f s addr w sg addr1 w1 sg1 a_val Hv Ha v Hit). Qed.
+Print Assumptions C07_read_hits_the_stored_cell.
+Theorem C07_narrower_read_is_the_low_part : forall ac IdQ f s addr w sg addr1 w1 sg1 a_val cell cellv r,
+  visitM simpF (EMem addr w sg) = Ok (EMem addr1 w1 sg1) -> evs f s addr1 = okx a_val ->
+  pool_get_mem s a_val w1 = None -> adict_get (pool_mem s) a_val = Some (cell, cellv) -> (w1 >? size cell) = false ->
+  wf ac IdQ cellv = true -> 0 < w1 <= size cellv -> eval_expr (S f) s (EMem addr w sg) = okx r ->
+  wf ac IdQ r = true /\ size r = w1 /\ forall rho mu iota, eval rho mu iota r = (eval rho mu iota cellv) mod 2 ^ w1.
+Proof. intros ac IdQ f s addr w sg addr1 w1 sg1 a_val cell cellv r Hv Ha. exact (read_low_part ac IdQ f s addr w sg addr1 w1 sg1 a_val Hv Ha cell cellv r). Qed.
+Print Assumptions C07_narrower_read_is_the_low_part.
+(** the hypotheses are met by a 16-bit read at the address of a stored dword *)
+Example C07_narrower_read_hypotheses_met :
+  let a := EInt false 32 4096 in let cell := EMem a 32 None in let v := EId "v" 32 true false in let s := Pool [] [(a, (cell, v))] in
+  visitM simpF (EMem a 16 None) = Ok (EMem a 16 None) /\ evs 20 s a = okx a /\ pool_get_mem s a 16 = None /\
+  adict_get (pool_mem s) a = Some (cell, v) /\ (16 >? size cell) = false /\ eval_expr 21 s (EMem a 16 None) = okx (ESlice v 0 16).
+Proof. vm_compute. repeat split; reflexivity. Qed.
 
 (** non-vacuity: xchg-like pair  eax := ebx ; ebx := eax  on  eax = 1, ebx = 2  swaps (both sources read the pre-state) *)
 Example C07_nonvacuous :
